@@ -716,6 +716,15 @@ func New(cfg Config) (*Instance, error) {
 	mux.Handle("/no/confirm/zone", probe)
 	mux.Handle("/no/lock/zone", probe)
 	mux.Handle("/ok/login/zone", probe)
+	// lock / confirm middleware used on their own (no Middleware2 in front): they load the user themselves
+	var bare http.Handler = http.HandlerFunc(in.probeHandler)
+	if cfg.Has("confirm") {
+		bare = confirm.Middleware(ab)(bare)
+	}
+	if cfg.Has("lock") {
+		bare = lock.Middleware(ab)(bare)
+	}
+	mux.Handle("/bare", bare)
 	// the same handler behind the mount-pathed variant (as authboss's own routes use it)
 	mprobe := authboss.MountedMiddleware2(ab, true, authboss.MWRequirements(cfg.MWReqs), fail)(http.HandlerFunc(in.probeHandler))
 	mux.Handle("/mprobe/", mprobe)
